@@ -15,7 +15,7 @@ from mc.lib import Acc, tree_hash, maxabs, on_path
 
 TREES = {
     "T1": {"v": [5], "m": [4, 2], "t": [2, 3, 2]},
-    "T2": {"w": [1, 3, 1, 2], "q": [4, 4], "s": []},
+    "T2": {"w": [1, 3, 1, 2], "q": [4, 4], "s": [], "r": [1, 5]},
 }
 
 BASE = dict(block_size=3, merge_dims=4, second_moment_decay=0.5,
@@ -41,7 +41,7 @@ OPTIONS = [
 SK_OPTIONS = [
     ("sketchy_rank", [1, 3]),
     ("relative_epsilon", [False]),
-    ("sketchy_epsilon", [1e-3]),
+    ("sketchy_epsilon", [1e-3, 0.05]),
     ("update_freq", [2, 3]),
     ("second_moment_decay", [1.0, 0.25]),
     ("merge_dims", [2, 1024]),
@@ -229,6 +229,9 @@ def run_task(task):
           acc.outcome("near_cutoff_inconclusive")
           continue
         for n in shapes:
+          if r2.leaves[n].tail_switch_seen:
+            acc.outcome("tail_switch_leaf_undecidable")
+            continue
           a = np.asarray(u[n], np.float64)
           b = want[n]
           sc = max(maxabs(b), 1e-30)
